@@ -216,18 +216,24 @@ class P(Prop):
     modelled = ("segmentation.optimalPartition (N = rows-1, D/M tables filled by increasing diagonals, both direction tests as written), "
                 "backtracking, backward; optimalSegmentation INCLUDING the call protocol of the cost function (is-None test on glob_param, 3/4 "
                 "positional arguments, defaults, TypeError), the two loops filling the matrix, C + C.T, degenerate track sizes; "
-                "simplification.optimalSimplification (parameter and direction forwarded), simplify() modes 4-8; findStopsGlobal's reward "
-                "matrix (row loops with break/continue, thresholds as written, C + C.T), its call of optimalPartition(MAXIMIZE) and the final filter")
+                "simplification.optimalSimplification (parameter and direction forwarded, b8f1113), simplify() modes 4-8; findStopsGlobal's and "
+                "findStopsGlobalForRTK's reward matrix (row loops with break/continue, thresholds as written, C + C.T), their call of "
+                "optimalPartition(MAXIMIZE) and findStopsGlobal's final filter; geometry, clock and the built-in cost functions are parameters")
     rule = ("all {0,1,2}-valued symmetric matrices over N <= 4 (quick) / <= 5 (thorough) candidates and all {0,1}-valued for N = 6 (thorough), "
             "both directions; random symmetric matrices up to N = 12 over small integers / dyadic rationals (exact, model at Rat) and over doubles "
             "(model at Float, bit patterns): uniform, gaussian, one-decimal and tie-rich values, 1e300 sentinels, +inf entries, N = 2..3, junk in the "
-            "unused last row/column, several call forms (default/keyword mode, verbose, integer dtype, strided view, Fortran order); sequences of "
-            "calls on one matrix object; front ends with generated cost functions (3 / 4 / 4-with-default / *rest / callable object, four "
-            "parametrised families) and global parameters None, 0, 0.0, -0.0, False, numpy zero, negative, positive, inf, tuples (empty included), "
-            "positional and keyword call forms, track sizes 0..10; simplify modes 4-6 on planar tracks with tolerances 0, 0.0, positive, negative, "
-            "inf, None; findStopsGlobal on lattice and dyadic tracks. Oracle: enumeration of all 2^(N-2) chains in exact arithmetic on the matrix "
-            "RECOMPUTED from the cost function and the requested parameter (from the track, for stops), costs compared (ties may pick another "
-            "chain). non-trivial = at least 3 candidates (so that at least one alternative chain exists)")
+            "unused last row/column, several call forms (default/keyword mode, the direction written as True/1.0/numpy integer or as a value equal to "
+            "neither constant, verbose, integer dtype, strided view, Fortran order); every matrix is submitted a second time as the same object, and "
+            "sequences of calls with changing directions run on one matrix object; front ends with generated cost functions (3 / 4 / 4-with-default / "
+            "*rest / callable object / not callable, four parametrised families) and global parameters None, 0, 0.0, -0.0, False, numpy zero, "
+            "negative, positive, inf, tuples (empty included), positional and keyword call forms, track sizes 0..9, single calls and sequences of "
+            "calls on the same track and cost function with changing parameter / direction / entry point; simplify modes 4-6 on planar tracks with "
+            "tolerances 0, 0.0, -0.0, False, numpy zero, positive, negative, inf, None; findStopsGlobal on lattice and dyadic tracks (duplicates, "
+            "collinear points, exact ties with both thresholds) and findStopsGlobalForRTK on dyadic tracks. Oracle: enumeration of all 2^(N-2) chains "
+            "in exact arithmetic on the matrix RECOMPUTED from the cost function and the requested parameter (from the track with exact rational "
+            "geometry, for findStopsGlobal), values compared (ties may pick another chain); doubles: optimum up to 1e-9 x the absolute costs summed "
+            "along the answer and along one optimal chain (the shape proved in optimal_rounded). non-trivial = at least 3 candidates, the call "
+            "protocol accepted, and for stops a reward matrix that is not zero")
 
     def setup(self):
         import importlib
@@ -252,6 +258,7 @@ class P(Prop):
         except Exception:
             pass
         self._geo = {}
+        self._alive = []
 
     # ---------------------------------------------------------------- generators
     def exhaustive_scopes(self, tier):
@@ -658,10 +665,13 @@ class P(Prop):
             C = self.nparray(case["s"], case["C"])
             return {"seq": [[int(x) for x in S.optimalPartition(C, self.MODES[m], False)] for m in case["modes"]]}
         if k == "fe":
-            return self.run_fe(case, self.track(len(case["A"])), self.make_cost(case))
+            t, cost = self.track(len(case["A"])), self.make_cost(case)
+            self._alive.append((t, cost))      # never let an id() be recycled: a single-call case must not depend on earlier cases
+            return self.run_fe(case, t, cost)
         if k == "feseq":
             # one track object, one cost-function object, several requests in a row (state left by earlier calls)
             t, cost = self.track(len(case["A"])), self.make_cost(case)
+            self._alive.append((t, cost))
             outs = []
             for call in case["calls"]:
                 try:
@@ -672,6 +682,7 @@ class P(Prop):
             return {"seq": outs}
         if k == "sb":
             t = self.sb_track(case)
+            self._alive.append(t)
             tol = pyval(case["tol"], self.np)
             if case.get("form") == "kw":
                 r = Z.simplify(t, tolerance=tol, mode=case["smode"], verbose=False)
